@@ -407,7 +407,7 @@ Proof. split; eexists; (split; [vm_compute; reflexivity|]); vm_compute; repeat s
    kept merged entries, cut between different user keys, under unused numbers); ms k is the minSeq of the k-th compaction.
    ------------------------------------------------------------------------------------------------------------------ *)
 From GL Require Import Lsm.RangeCompact Lsm.RangeStep Lsm.RangeProofs Lsm.AutoProofs Lsm.RangeReads.
-From Coq Require Import ZArith.
+From Coq Require Import ZArith Lia.
 
 (* Termination of the CompactRange retry loop when no new table arrives in between, with an explicit fuel bound:
    range_fuel v = 1 + max 1 (levels - 1) * (number of stored entries).  Measure: the sum over the levels l < K of
@@ -562,6 +562,31 @@ Proof.
   split; [intros t; unfold rx_sz; apply N.le_refl|]. split; [vm_compute; repeat constructor|]. split; [vm_compute; reflexivity|].
   split; [intros H; specialize (H 2%nat (le_n 2)); vm_compute in H; discriminate|].
   split; [vm_compute; reflexivity|]. eexists. split; [vm_compute; reflexivity|]. vm_compute. repeat split; reflexivity.
+Qed.
+
+(* The same for ALL fuel, and in general: with FLAT level limits (every level may hold lim > 0 bytes) and a size function
+   under which no table is lighter than lim, from a well-formed version with an empty level 0, no cSeek and some readable
+   key the background loop never stops, whatever fuel it is given.  (Reads are preserved by every step, so a table
+   always exists; nothing moves up, so it lives in a level >= 1, which scores >= 1.) *)
+Theorem C06_flat_limits_never_idle : forall c, comparer_ok c -> forall p, kparams_ok p -> forall sz o bld ms,
+  bld_ok c p sz o bld ms -> (forall j, ms j < keyMaxSeq p) ->
+  forall lim, 0 < lim -> (forall l, o_tot_limit o l = Z.of_N lim) -> (forall t, t_entries t <> [] -> lim <= sz t) ->
+  forall k0 s0, safe_seq ms s0 -> forall val fuel st,
+  restless c p k0 s0 val st -> auto_loop c sz o bld fuel st = POutOfFuel.
+Proof. exact flat_limits_never_idle. Qed.
+Print Assumptions C06_flat_limits_never_idle.
+
+Example C06_auto_compaction_never_quiesces_refuted :
+  forall fuel, auto_loop bytewise rx_sz fx_o rx_bld fuel fx_st = POutOfFuel.
+Proof.
+  intros fuel.
+  apply (C06_flat_limits_never_idle bytewise bytewise_ok kp kp_ok rx_sz fx_o rx_bld (fun _ => 0)
+           (simple_bld_ok bytewise bytewise_ok kp rx_sz fx_o (fun _ => 0)) ltac:(intros j; vm_compute; reflexivity)
+           50 ltac:(reflexivity) ltac:(intros l; reflexivity)
+           ltac:(intros t H; unfold rx_sz; destruct (t_entries t) as [|e r]; [congruence|cbn [length]; rewrite Nat2N.inj_succ; nia])
+           [0] 10 ltac:(intros j; vm_compute; discriminate) [] fuel fx_st).
+  split; [apply (wf_lsmb_sound bytewise bytewise_ok kp); vm_compute; reflexivity|].
+  split; [reflexivity|]. split; [reflexivity|]. vm_compute. reflexivity.
 Qed.
 
 (* REFUTED for the code before the repair (found by the KRange correspondence: observed compaction pointers after a
